@@ -138,7 +138,7 @@ Proof.
            destruct (Nat.eqb_spec c i) as [->|Hci]; [unfold child in *; lia|].
            pose proof (I1 i c Hc Hic Hcj). lia.
       * rewrite hswap_length in Hok. split; auto.
-        eapply Permutation_trans; [apply hswap_perm; eauto|]; auto.
+        apply Permutation_trans with (hswap h i j); [apply hswap_perm; auto|auto].
     + split; [|apply Permutation_refl].
       intros p c Hc Hch.
       destruct (Nat.eq_dec c j) as [->|Hcj]; [|apply I1; auto].
@@ -196,7 +196,8 @@ Proof.
           destruct (Z.ltb_spec (K h (j1 + 1)%nat) (K h j1)); unfold child in Hch;
             destruct Hch as [->| ->]; fold j1; replace (2 * i + 2)%nat with (j1 + 1)%nat by lia; lia.
         - unfold child in Hch. destruct Hch as [->| ->]; fold j1; [lia|lia]. }
-      unfold hless at 2. fold (K h j). fold (K h i).
+      assert (Hb : hless h j i = (K h j <? K h i)) by reflexivity.
+      rewrite Hb.
       destruct (Z.ltb_spec (K h j) (K h i)) as [Hlt|Hge]; cbn [negb].
       * assert (Hi : (i < length h)%nat) by (unfold child in Hchj; lia).
         assert (Hj : (j < length h)%nat) by lia.
@@ -227,7 +228,7 @@ Proof.
               destruct (Nat.eqb_spec c i); [unfold child in *; lia|].
               apply I1; auto.
         -- split; auto. split.
-           ++ eapply Permutation_trans; [apply hswap_perm; eauto|]; auto.
+           ++ apply Permutation_trans with (hswap h i j); [apply hswap_perm; auto|auto].
            ++ intros k Hk. rewrite Hsuf by auto. rewrite nth_hswap by auto.
               destruct (Nat.eqb_spec k j); [lia|]. destruct (Nat.eqb_spec k i); [lia|]. auto.
       * split; [|split; auto].
@@ -246,6 +247,12 @@ Proof.
   f_equal.
   rewrite <- (firstn_skipn n l) at 1. rewrite app_nth2; rewrite firstn_length; try lia.
   replace (n - Nat.min n (length l))%nat with 0%nat by lia. now rewrite E.
+Qed.
+
+Lemma nth_firstn_lt : forall A (l : list A) n k d, (k < n)%nat -> nth k (firstn n l) d = nth k l d.
+Proof.
+  induction l as [|a t IH]; intros [|n] [|k] d Hk; simpl; auto; try lia.
+  apply IH. lia.
 Qed.
 
 Lemma heap_pop_spec : forall h, h <> [] -> heap_ok h (length h) ->
@@ -283,7 +290,7 @@ Proof.
     { rewrite Hsuf by lia. rewrite nth_hswap by auto. now rewrite Nat.eqb_refl. }
     exists (nth n h2 dfrag), (firstn n h2).
     assert (Hp : Permutation h (nth n h2 dfrag :: firstn n h2)).
-    { eapply Permutation_trans; [apply hswap_perm; eauto|].
+    { apply Permutation_trans with (hswap h 0 n); [apply hswap_perm; auto|].
       eapply Permutation_trans; [apply Hperm|].
       rewrite (firstn_last_nth h2 n Hl2) at 1.
       apply Permutation_sym. apply Permutation_cons_append. }
@@ -291,8 +298,7 @@ Proof.
     split; [reflexivity|]. split; [auto|]. split; [auto|]. split; [|split].
     + rewrite Hfl. intros p c Hc Hch.
       assert (Hp' : (p < n)%nat) by (unfold child in *; lia).
-      unfold K. rewrite !nth_firstn.
-      destruct (Nat.ltb_spec p n); [|lia]. destruct (Nat.ltb_spec c n); [|lia].
+      unfold K. rewrite !nth_firstn_lt by lia.
       apply Hok2; auto.
     + intros y Hy. rewrite Hx.
       assert (In y h).
@@ -333,3 +339,29 @@ Qed.
 
 Lemma heap_pop_none : forall h, heap_pop h = None <-> h = [].
 Proof. intros [|a t]; simpl; split; congruence. Qed.
+
+(* permutation alone (no heap order needed): used for the provenance of stored fragments *)
+Lemma h_up_perm : forall fuel h j, (j < length h)%nat -> Permutation h (h_up fuel h j).
+Proof.
+  induction fuel as [|f IH]; intros h j Hj; cbn [h_up]; [apply Permutation_refl|].
+  destruct ((((j - 1) / 2 =? j)%nat) || negb (hless h j ((j - 1) / 2))); [apply Permutation_refl|].
+  assert (Hp : ((j - 1) / 2 < length h)%nat).
+  { destruct j; [simpl; lia|]. destruct (parent_child (S j) ltac:(lia)). lia. }
+  apply Permutation_trans with (hswap h ((j - 1) / 2) j); [apply hswap_perm; auto|].
+  apply IH. now rewrite hswap_length.
+Qed.
+
+Lemma heap_push_perm : forall h x, Permutation (x :: h) (heap_push h x).
+Proof.
+  intros. unfold heap_push.
+  apply Permutation_trans with (h ++ [x]); [apply Permutation_cons_append|].
+  apply h_up_perm. rewrite app_length. simpl. lia.
+Qed.
+
+Lemma heap_push_in : forall h x y, In y (heap_push h x) <-> y = x \/ In y h.
+Proof.
+  intros h x y. split.
+  - intros H. apply (Permutation_in _ (Permutation_sym (heap_push_perm h x))) in H.
+    destruct H; auto.
+  - intros H. apply (Permutation_in _ (heap_push_perm h x)). destruct H; [left|right]; auto.
+Qed.
